@@ -79,7 +79,73 @@ def discharge(pc, goal, timeout_ms=10000, use_cvc5=True, want_model=True):
         if st2 == "sat":
             return "refuted", "cvc5", dt + dt2, None, smt2
         dt += dt2
+    # last resort for formulas mixing non-linear arithmetic with uninterpreted functions (trigonometry): replace every
+    # application of an uninterpreted function by a fresh constant (same constant for syntactically equal applications).
+    # The abstraction admits more models, so `unsat` still proves the goal; a `sat` model is accepted only if it is
+    # congruent (no two applications with equal argument values got different results) - then it extends to a model
+    # of the original formula.
+    try:
+        st3, m3, dt3 = _solve_abstracting_ufs(rel + [z3.Not(goal)], timeout_ms)
+    except Exception:
+        st3, m3, dt3 = "unknown", None, 0.0
+    dt += dt3
+    if st3 == "unsat":
+        return "proved", "z3-uf-abstraction", dt, None, smt2
+    if st3 == "sat":
+        return "refuted", "z3-uf-abstraction", dt, m3, smt2
     return "unknown", "z3+cvc5", dt, None, smt2
+
+
+def _solve_abstracting_ufs(formulas, timeout_ms):
+    t0 = time.time()
+    apps = {}          # ast id -> (application term, fresh constant)
+    keep = []
+
+    def collect(t, seen):
+        if t.get_id() in seen:
+            return
+        seen.add(t.get_id())
+        for c in t.children():
+            collect(c, seen)
+        if z3.is_app(t) and t.num_args() > 0 and t.decl().kind() == z3.Z3_OP_UNINTERPRETED and t.get_id() not in apps:
+            apps[t.get_id()] = (t, z3.FreshConst(t.sort(), "ufapp"))
+            keep.append(t)
+    seen = set()
+    for f in formulas:
+        if _has_quant(f):
+            return "unknown", None, 0.0
+        collect(f, seen)
+    if not apps:
+        return "unknown", None, 0.0
+    # innermost applications first (an application may occur inside the argument of another one)
+    order = sorted(apps.values(), key=lambda p: len(p[0].sexpr()))
+    subst = []
+    abstract_of = {}
+    for t, c in order:
+        t_abs = z3.substitute(t, *subst) if subst else t
+        abstract_of[c.get_id()] = (t_abs, c, t.decl())
+        subst.append((t, c))
+    subst_rev = list(reversed(subst))          # outer applications first so that they are replaced as a whole
+    abstracted = [z3.substitute(f, *subst_rev) for f in formulas]
+    s = z3.Solver()
+    s.set("timeout", timeout_ms)
+    s.add(*abstracted)
+    r = s.check()
+    if r == z3.unsat:
+        return "unsat", None, time.time() - t0
+    if r != z3.sat:
+        return "unknown", None, time.time() - t0
+    m = s.model()
+    # congruence check
+    rows = {}
+    for t_abs, c, decl in abstract_of.values():
+        args = tuple(str(m.eval(a, model_completion=True)) for a in t_abs.children())
+        val = str(m.eval(c, model_completion=True))
+        k = (decl.name(), args)
+        if k in rows and rows[k] != val:
+            return "unknown", None, time.time() - t0
+        rows[k] = val
+    return "sat", m, time.time() - t0
 
 
 def _has_quant(t):
